@@ -591,6 +591,18 @@ PROPS['C04']['explanation'] = ('Kani proves Prev::execute complete (all disposit
     'Verus proves on the extracted register_unchecked_impl, for every registry state: first registration = fallback for this signal published, then the sigaction call, then the slot published (three events, this order, under the data lock); later registrations touch neither sigaction nor the fallback; the published slot carries the prev of Slot::new. '
     'The delivery landing between the sigaction call and the publication is covered by the Kani harness that injects it at that instant (bounded state shape) and by composing the two Verus contracts (fallback present and for this signal => executed once).')
 
+# Engine V on the real Handle::add_signal (extracted mechanically on every run, see lib/verus_addsignal.py): every table state
+UNITS['addsignal_verus'] = dict(name='addsignal_verus', engine='verus', module='verus_addsignal', entry='run_addsignal', min_verified=2, rlimit=30,
+    obligations=['C12.V-ADD-IDEMPOTENT', 'C12.V-ADD-ERR-NO-CHANGE', 'C12.V-ADD-OK-RECORDS-ID', 'C12.V-ADD-NO-PANIC'])
+FA = 'iterator/backend.rs: Handle::add_signal (extracted text, Verus, every state of the 128-entry id table, every signal in 0..128): '
+obl('C12.V-ADD-IDEMPOTENT', FA + 'ensures', 'the signal is already in the set: Ok, no registration attempt, the table is unchanged')
+obl('C12.V-ADD-ERR-NO-CHANGE', FA + 'ensures', 'a refused addition (the registration returns Err) leaves the table exactly as it was at lock acquisition, after exactly one registration attempt, for this signal - so the same call can be retried', also=['C14'])
+obl('C12.V-ADD-OK-RECORDS-ID', FA + 'ensures', 'a successful addition makes exactly one registration, for this signal, under the table lock, and records exactly the id it returned at table[signal]; every other entry is unchanged (so Drop unregisters precisely what this instance registered)', also=['C10'])
+obl('C12.V-ADD-NO-PANIC', FA + 'verifier-generated checks', 'for 0 <= signal < 128 no index or arithmetic check on a line of the real function fails (the documented panics are exactly the out-of-range inputs)')
+PROPS['C12']['units'] = PROPS['C12']['units'] + ['addsignal_verus']
+PROPS['C12']['trusted'] = PROPS['C12']['trusted'] + ['Verus unit addsignal_verus: stand-ins for Handle / DeliveryState / the id-table mutex and its guard (length 128, poison ignored by `unwrap_or_else(PoisonError::into_inner)`) / Arc / the two trait objects; assumed trace contract of <Arc<PendingSignals<E>>>::add_signal (real body under Kani contract); rewrites A0-A1; signals outside 0..128 are not covered by this unit (documented panics, decided natively)']
+PROPS['C12']['technique'] = 'requires/ensures contract of the real Handle::add_signal on its mechanically extracted text for every table state (Verus/Z3) + checks-before-effects / clean-up trace contracts on the real backend.rs (Kani/CBMC, table of 4 or one signal of 128) + native executions for the post-panic scenarios'
+
 # quick tier must stay well under 900 s per check (vp check): the slowest bounded cross-check harnesses run in the thorough
 # tier only for the properties whose unbounded Verus obligations supersede them
 PROPS['C05']['quick_drop'] = ['c04_op_register_vacant', 'c05_op_register_occupied_small', 'c02_hist_order', 'c05_hist_reregister']
